@@ -47,3 +47,22 @@ Example C01_hypotheses_satisfiable :
             retained (normalize ex_opt) ex_keys ex_vals 3 = false /\
             get T ["000"%byte; "255"%byte] = Ok (Found (Some ["002"%byte])).
 Proof. vm_compute. eexists. repeat split. Qed.
+
+From Slim Require Import Encoders EncodersProofs TypedProofs.
+
+(* ---- the typed view: what Get returns to the caller ---------------------------------------
+   NewSlimTrie stores e.Encode(v_i) for every value and Get passes the stored bytes to
+   e.Decode.  For EVERY encoder of the library (integer codecs regenerated from the source,
+   String16, Bytes, Dummy, TypeEncoder over any fixed-size type - the encoders of C15) and
+   every list of values in the encoder's domain: the value decoded from what Get finds for a
+   retained key is the value supplied for it, and Decode consumes exactly the stored bytes. *)
+Theorem C01_typed_values :
+  forall (e : encoder) (ropt : raw_opt) keys (tvals : list value) (encs : list (list byte)) T i k tv,
+    Forall (in_domain e) tvals ->
+    Forall2 (fun v b => enc_encode e v = DOk b) tvals encs ->
+    build (normalize ropt) keys (Some encs) = Ok T ->
+    nth_error keys i = Some k -> nth_error tvals i = Some tv ->
+    retained (normalize ropt) keys (Some encs) i = true ->
+    exists v, get T k = Ok (Found v) /\ enc_decode e (val_bytes v) = DOk (length (val_bytes v), tv).
+Proof. intros e ropt keys tvals encs T i k tv. exact (typed_value_found e (normalize ropt) keys tvals encs T i k tv). Qed.
+Print Assumptions C01_typed_values.
